@@ -85,7 +85,8 @@ impl SO2StateSpace {
         if fraction > 0.0 && fraction <= 1.0 {
             self.longest_valid_segment_fraction = fraction;
         } else if fraction <= 0.0 {
-            self.longest_valid_segment_fraction = 0.;
+            // A resolution of zero would make every motion check take practically forever
+            // (distance / 0 steps): a non-positive fraction is ignored.
         } else {
             self.longest_valid_segment_fraction = 1.;
         }
